@@ -13,7 +13,7 @@ theorem kwargsCheck_ok {O : Oracles} {t : TailSpec} {m : Msg} (h : tailStrict O 
 
 /-- everything before the constructor reads the attributes back -/
 theorem parseStage_marshal (σ : Schema) (O : Oracles)
-    (hwf : σ.wf = true) (hwfO : σ.wfO O = true) (hnr : σ.noRoles = true)
+    (hwf : σ.wf = true) (hwfO : σ.wfO O = true)
     (m : Msg) (hst : σ.strict O m = true) (hres : σ.residual O m = true) :
     σ.parseStage O (σ.marshal m) = .ok m := by
   have hnames := (strict_parts hst).1
@@ -22,7 +22,7 @@ theorem parseStage_marshal (σ : Schema) (O : Oracles)
     rw [← hnames]; rw [← hnames] at hnd; exact Msg.rebuild m hnd
   unfold Schema.parseStage
   simp only [lengths_marshal hwf, Bool.not_true, Bool.false_eq_true, if_false]
-  rw [parsePos_marshal hwf hwfO hst hres, optsOf_marshal' hwf, parseOpts_marshal hwf hwfO hnr hst hres]
+  rw [parsePos_marshal hwf hwfO hst hres, optsOf_marshal' hwf, parseOpts_marshal hwf hwfO hst hres]
   have hcm : σ.customPart O (σ.marshal m) =
       (if σ.custom = true then [cs!"custom"] else []).map (fun f => (f, Msg.get m f)) := by
     unfold Schema.customPart
@@ -67,14 +67,14 @@ theorem ctorStage_valid (σ : Schema) (O : Oracles) (m : Msg) (hst : σ.strict O
     simp only [Option.isSome_some, if_true]
     exact kwargsCheck_ok hts
 
-/-- generic round trip (first form: schemas without a `roles` entry) -/
-theorem parse_marshal_noRoles (σ : Schema) (O : Oracles)
-    (hwf : σ.wf = true) (hwfO : σ.wfO O = true) (hnr : σ.noRoles = true)
+/-- generic round trip -/
+theorem parse_marshal_generic (σ : Schema) (O : Oracles)
+    (hwf : σ.wf = true) (hwfO : σ.wfO O = true)
     (m : Msg) (hv : σ.valid O m = true) : σ.parse O (σ.marshal m) = .ok m := by
   simp only [Schema.valid, Bool.and_eq_true] at hv
   obtain ⟨hst, hres⟩ := hv
   unfold Schema.parse
-  rw [parseStage_marshal σ O hwf hwfO hnr m hst hres]
+  rw [parseStage_marshal σ O hwf hwfO m hst hres]
   simp only [bind, Except.bind, ctorStage_valid σ O m hst hres]
   rfl
 
